@@ -284,7 +284,7 @@ impl Check for C20 {
                 return co;
             }
         };
-        let n_all = c.edges.iter().chain(c.edges2.iter()).map(|e| e.1 + 1).max().unwrap_or(0).max(c.n);
+        let n_all = c.edges.iter().chain(c.edges2.iter()).map(|e| e.0.max(e.1) + 1).max().unwrap_or(0).max(c.n);
         let reach = reach_matrix(n_all, &c.edges);
         let same_scc = |a: usize, b: usize| a == b || (reach[a][b] && reach[b][a]);
         let all_edges: Vec<(usize, usize)> = c.edges.iter().chain(c.edges2.iter()).copied().collect();
@@ -496,6 +496,16 @@ impl Check for C20 {
                 out.push(d);
             }
         }
+        for k in 0..c.edges2.len() {
+            let mut d = c.clone();
+            d.edges2.remove(k);
+            out.push(d);
+        }
+        if c.alias.iter().enumerate().any(|(i, a)| *a != i) {
+            let mut d = c.clone();
+            d.alias = (0..d.alias.len()).collect();
+            out.push(d);
+        }
         for k in 0..c.edges.len() {
             let mut d = c.clone();
             d.edges.remove(k);
@@ -507,6 +517,12 @@ impl Check for C20 {
             let last = c.n - 1;
             d.n -= 1;
             d.edges.retain(|e| e.0 != last && e.1 != last);
+            d.edges2.retain(|e| e.0 < last && e.1 != last);
+            d.edges2.iter_mut().for_each(|e| {
+                if e.1 > last {
+                    e.1 -= 1
+                }
+            });
             d.edges.iter_mut().for_each(|e| {
                 if e.1 > last {
                     e.1 -= 1
